@@ -2274,7 +2274,7 @@ fn collect_embedded_skin_data<R: Read + Seek>(
         // Read indices data (u16 per entry)
         let indices = if n_indices > 0 && ofs_indices > 0 {
             reader.seek(SeekFrom::Start(ofs_indices as u64))?;
-            let mut data = vec![0u8; n_indices as usize * 2];
+            let mut data = crate::common::alloc_for_read(reader, n_indices as usize * 2)?;
             reader.read_exact(&mut data)?;
             data
         } else {
@@ -2284,7 +2284,7 @@ fn collect_embedded_skin_data<R: Read + Seek>(
         // Read triangles data (u16 per entry)
         let triangles = if n_triangles > 0 && ofs_triangles > 0 {
             reader.seek(SeekFrom::Start(ofs_triangles as u64))?;
-            let mut data = vec![0u8; n_triangles as usize * 2];
+            let mut data = crate::common::alloc_for_read(reader, n_triangles as usize * 2)?;
             reader.read_exact(&mut data)?;
             data
         } else {
@@ -2295,7 +2295,7 @@ fn collect_embedded_skin_data<R: Read + Seek>(
         let properties = if n_properties > 0 && ofs_properties > 0 {
             reader.seek(SeekFrom::Start(ofs_properties as u64))?;
             // Properties are typically 4 bytes per entry (bone indices + padding)
-            let mut data = vec![0u8; n_properties as usize * 4];
+            let mut data = crate::common::alloc_for_read(reader, n_properties as usize * 4)?;
             reader.read_exact(&mut data)?;
             data
         } else {
@@ -2305,7 +2305,7 @@ fn collect_embedded_skin_data<R: Read + Seek>(
         // Read submeshes data
         let submeshes = if n_submeshes > 0 && ofs_submeshes > 0 {
             reader.seek(SeekFrom::Start(ofs_submeshes as u64))?;
-            let mut data = vec![0u8; n_submeshes as usize * submesh_size];
+            let mut data = crate::common::alloc_for_read(reader, n_submeshes as usize * submesh_size)?;
             reader.read_exact(&mut data)?;
             data
         } else {
@@ -2316,7 +2316,7 @@ fn collect_embedded_skin_data<R: Read + Seek>(
         // SkinBatch: 2 bytes (flags/priority) + 22 bytes (11 u16 fields) = 24 bytes
         let batches = if n_batches > 0 && ofs_batches > 0 {
             reader.seek(SeekFrom::Start(ofs_batches as u64))?;
-            let mut data = vec![0u8; n_batches as usize * 24];
+            let mut data = crate::common::alloc_for_read(reader, n_batches as usize * 24)?;
             reader.read_exact(&mut data)?;
             data
         } else {
@@ -2533,7 +2533,8 @@ impl M2Model {
                     let end_pos = current_pos + header.size as u64;
 
                     let count = header.size / 4; // Each ID is 4 bytes
-                    let mut ids = Vec::with_capacity(count as usize);
+                    crate::common::ensure_available(reader, count as u64)?;
+                    let mut ids = Vec::with_capacity(crate::common::bounded_capacity(count as usize));
 
                     for _ in 0..count {
                         ids.push(reader.read_u32_le()?);
@@ -2550,7 +2551,8 @@ impl M2Model {
                     let end_pos = current_pos + header.size as u64;
 
                     let count = header.size / 4; // Each ID is 4 bytes
-                    let mut ids = Vec::with_capacity(count as usize);
+                    crate::common::ensure_available(reader, count as u64)?;
+                    let mut ids = Vec::with_capacity(crate::common::bounded_capacity(count as usize));
 
                     for _ in 0..count {
                         ids.push(reader.read_u32_le()?);
@@ -2567,7 +2569,8 @@ impl M2Model {
                     let end_pos = current_pos + header.size as u64;
 
                     let count = header.size / 4; // Each ID is 4 bytes
-                    let mut ids = Vec::with_capacity(count as usize);
+                    crate::common::ensure_available(reader, count as u64)?;
+                    let mut ids = Vec::with_capacity(crate::common::bounded_capacity(count as usize));
 
                     for _ in 0..count {
                         ids.push(reader.read_u32_le()?);
@@ -2608,7 +2611,8 @@ impl M2Model {
                     let end_pos = current_pos + header.size as u64;
 
                     let count = header.size / 4; // Each ID is 4 bytes
-                    let mut ids = Vec::with_capacity(count as usize);
+                    crate::common::ensure_available(reader, count as u64)?;
+                    let mut ids = Vec::with_capacity(crate::common::bounded_capacity(count as usize));
 
                     for _ in 0..count {
                         ids.push(reader.read_u32_le()?);
@@ -2635,7 +2639,8 @@ impl M2Model {
                     }
 
                     let count = header.size / LOD_LEVEL_SIZE;
-                    let mut levels = Vec::with_capacity(count as usize);
+                    crate::common::ensure_available(reader, count as u64)?;
+                    let mut levels = Vec::with_capacity(crate::common::bounded_capacity(count as usize));
 
                     for _ in 0..count {
                         use crate::chunks::file_references::LodLevel;
@@ -2664,7 +2669,7 @@ impl M2Model {
                     let _end_pos = current_pos + header.size as u64;
 
                     // Create a limited reader for this chunk
-                    let mut chunk_data = vec![0u8; header.size as usize];
+                    let mut chunk_data = crate::common::alloc_for_read(reader, header.size as usize)?;
                     reader.read_exact(&mut chunk_data)?;
                     let chunk_cursor = std::io::Cursor::new(chunk_data);
                     let mut chunk_reader = ChunkReader::new(chunk_cursor, header.clone())?;
@@ -2680,7 +2685,7 @@ impl M2Model {
                     let _end_pos = current_pos + header.size as u64;
 
                     // Create a limited reader for this chunk
-                    let mut chunk_data = vec![0u8; header.size as usize];
+                    let mut chunk_data = crate::common::alloc_for_read(reader, header.size as usize)?;
                     reader.read_exact(&mut chunk_data)?;
                     let chunk_cursor = std::io::Cursor::new(chunk_data);
                     let mut chunk_reader = ChunkReader::new(chunk_cursor, header.clone())?;
@@ -2696,7 +2701,7 @@ impl M2Model {
                     let _end_pos = current_pos + header.size as u64;
 
                     // Create a limited reader for this chunk
-                    let mut chunk_data = vec![0u8; header.size as usize];
+                    let mut chunk_data = crate::common::alloc_for_read(reader, header.size as usize)?;
                     reader.read_exact(&mut chunk_data)?;
                     let chunk_cursor = std::io::Cursor::new(chunk_data);
                     let mut chunk_reader = ChunkReader::new(chunk_cursor, header.clone())?;
@@ -2712,7 +2717,7 @@ impl M2Model {
                     let _end_pos = current_pos + header.size as u64;
 
                     // Create a limited reader for this chunk
-                    let mut chunk_data = vec![0u8; header.size as usize];
+                    let mut chunk_data = crate::common::alloc_for_read(reader, header.size as usize)?;
                     reader.read_exact(&mut chunk_data)?;
                     let chunk_cursor = std::io::Cursor::new(chunk_data);
                     let mut chunk_reader = ChunkReader::new(chunk_cursor, header.clone())?;
@@ -2727,7 +2732,7 @@ impl M2Model {
                     let _end_pos = current_pos + header.size as u64;
 
                     // Create a limited reader for this chunk
-                    let mut chunk_data = vec![0u8; header.size as usize];
+                    let mut chunk_data = crate::common::alloc_for_read(reader, header.size as usize)?;
                     reader.read_exact(&mut chunk_data)?;
                     let chunk_cursor = std::io::Cursor::new(chunk_data);
                     let mut chunk_reader = ChunkReader::new(chunk_cursor, header.clone())?;
@@ -2742,7 +2747,7 @@ impl M2Model {
                     let _end_pos = current_pos + header.size as u64;
 
                     // Create a limited reader for this chunk
-                    let mut chunk_data = vec![0u8; header.size as usize];
+                    let mut chunk_data = crate::common::alloc_for_read(reader, header.size as usize)?;
                     reader.read_exact(&mut chunk_data)?;
                     let chunk_cursor = std::io::Cursor::new(chunk_data);
                     let mut chunk_reader = ChunkReader::new(chunk_cursor, header.clone())?;
@@ -2757,7 +2762,7 @@ impl M2Model {
                     let _end_pos = current_pos + header.size as u64;
 
                     // Create a limited reader for this chunk
-                    let mut chunk_data = vec![0u8; header.size as usize];
+                    let mut chunk_data = crate::common::alloc_for_read(reader, header.size as usize)?;
                     reader.read_exact(&mut chunk_data)?;
                     let chunk_cursor = std::io::Cursor::new(chunk_data);
                     let mut chunk_reader = ChunkReader::new(chunk_cursor, header.clone())?;
@@ -2772,7 +2777,7 @@ impl M2Model {
                     let _end_pos = current_pos + header.size as u64;
 
                     // Create a limited reader for this chunk
-                    let mut chunk_data = vec![0u8; header.size as usize];
+                    let mut chunk_data = crate::common::alloc_for_read(reader, header.size as usize)?;
                     reader.read_exact(&mut chunk_data)?;
                     let chunk_cursor = std::io::Cursor::new(chunk_data);
                     let mut chunk_reader = ChunkReader::new(chunk_cursor, header.clone())?;
@@ -2787,7 +2792,7 @@ impl M2Model {
                     let _end_pos = current_pos + header.size as u64;
 
                     // Create a limited reader for this chunk
-                    let mut chunk_data = vec![0u8; header.size as usize];
+                    let mut chunk_data = crate::common::alloc_for_read(reader, header.size as usize)?;
                     reader.read_exact(&mut chunk_data)?;
                     let chunk_cursor = std::io::Cursor::new(chunk_data);
                     let mut chunk_reader = ChunkReader::new(chunk_cursor, header.clone())?;
@@ -2802,7 +2807,7 @@ impl M2Model {
                     let _end_pos = current_pos + header.size as u64;
 
                     // Create a limited reader for this chunk
-                    let mut chunk_data = vec![0u8; header.size as usize];
+                    let mut chunk_data = crate::common::alloc_for_read(reader, header.size as usize)?;
                     reader.read_exact(&mut chunk_data)?;
                     let chunk_cursor = std::io::Cursor::new(chunk_data);
                     let mut chunk_reader = ChunkReader::new(chunk_cursor, header.clone())?;
@@ -2817,7 +2822,7 @@ impl M2Model {
                     let _end_pos = current_pos + header.size as u64;
 
                     // Create a limited reader for this chunk
-                    let mut chunk_data = vec![0u8; header.size as usize];
+                    let mut chunk_data = crate::common::alloc_for_read(reader, header.size as usize)?;
                     reader.read_exact(&mut chunk_data)?;
                     let chunk_cursor = std::io::Cursor::new(chunk_data);
                     let mut chunk_reader = ChunkReader::new(chunk_cursor, header.clone())?;
@@ -2832,7 +2837,7 @@ impl M2Model {
                     let _end_pos = current_pos + header.size as u64;
 
                     // Create a limited reader for this chunk
-                    let mut chunk_data = vec![0u8; header.size as usize];
+                    let mut chunk_data = crate::common::alloc_for_read(reader, header.size as usize)?;
                     reader.read_exact(&mut chunk_data)?;
                     let chunk_cursor = std::io::Cursor::new(chunk_data);
                     let mut chunk_reader = ChunkReader::new(chunk_cursor, header.clone())?;
@@ -2847,7 +2852,7 @@ impl M2Model {
                     let _end_pos = current_pos + header.size as u64;
 
                     // Create a limited reader for this chunk
-                    let mut chunk_data = vec![0u8; header.size as usize];
+                    let mut chunk_data = crate::common::alloc_for_read(reader, header.size as usize)?;
                     reader.read_exact(&mut chunk_data)?;
                     let chunk_cursor = std::io::Cursor::new(chunk_data);
                     let mut chunk_reader = ChunkReader::new(chunk_cursor, header.clone())?;
@@ -2863,7 +2868,7 @@ impl M2Model {
                     let _end_pos = current_pos + header.size as u64;
 
                     // Create a limited reader for this chunk
-                    let mut chunk_data = vec![0u8; header.size as usize];
+                    let mut chunk_data = crate::common::alloc_for_read(reader, header.size as usize)?;
                     reader.read_exact(&mut chunk_data)?;
                     let chunk_cursor = std::io::Cursor::new(chunk_data);
                     let mut chunk_reader = ChunkReader::new(chunk_cursor, header.clone())?;
@@ -2878,7 +2883,7 @@ impl M2Model {
                     let _end_pos = current_pos + header.size as u64;
 
                     // Create a limited reader for this chunk
-                    let mut chunk_data = vec![0u8; header.size as usize];
+                    let mut chunk_data = crate::common::alloc_for_read(reader, header.size as usize)?;
                     reader.read_exact(&mut chunk_data)?;
                     let chunk_cursor = std::io::Cursor::new(chunk_data);
                     let mut chunk_reader = ChunkReader::new(chunk_cursor, header.clone())?;
@@ -2893,7 +2898,7 @@ impl M2Model {
                     let _end_pos = current_pos + header.size as u64;
 
                     // Create a limited reader for this chunk
-                    let mut chunk_data = vec![0u8; header.size as usize];
+                    let mut chunk_data = crate::common::alloc_for_read(reader, header.size as usize)?;
                     reader.read_exact(&mut chunk_data)?;
                     let chunk_cursor = std::io::Cursor::new(chunk_data);
                     let mut chunk_reader = ChunkReader::new(chunk_cursor, header.clone())?;
@@ -2908,7 +2913,7 @@ impl M2Model {
                     let _end_pos = current_pos + header.size as u64;
 
                     // Create a limited reader for this chunk
-                    let mut chunk_data = vec![0u8; header.size as usize];
+                    let mut chunk_data = crate::common::alloc_for_read(reader, header.size as usize)?;
                     reader.read_exact(&mut chunk_data)?;
                     let chunk_cursor = std::io::Cursor::new(chunk_data);
                     let mut chunk_reader = ChunkReader::new(chunk_cursor, header.clone())?;
@@ -2923,7 +2928,7 @@ impl M2Model {
                     let _end_pos = current_pos + header.size as u64;
 
                     // Create a limited reader for this chunk
-                    let mut chunk_data = vec![0u8; header.size as usize];
+                    let mut chunk_data = crate::common::alloc_for_read(reader, header.size as usize)?;
                     reader.read_exact(&mut chunk_data)?;
                     let chunk_cursor = std::io::Cursor::new(chunk_data);
                     let mut chunk_reader = ChunkReader::new(chunk_cursor, header.clone())?;
@@ -2938,7 +2943,7 @@ impl M2Model {
                     let _end_pos = current_pos + header.size as u64;
 
                     // Create a limited reader for this chunk
-                    let mut chunk_data = vec![0u8; header.size as usize];
+                    let mut chunk_data = crate::common::alloc_for_read(reader, header.size as usize)?;
                     reader.read_exact(&mut chunk_data)?;
                     let chunk_cursor = std::io::Cursor::new(chunk_data);
                     let mut chunk_reader = ChunkReader::new(chunk_cursor, header.clone())?;
@@ -2953,7 +2958,7 @@ impl M2Model {
                     let _end_pos = current_pos + header.size as u64;
 
                     // Create a limited reader for this chunk
-                    let mut chunk_data = vec![0u8; header.size as usize];
+                    let mut chunk_data = crate::common::alloc_for_read(reader, header.size as usize)?;
                     reader.read_exact(&mut chunk_data)?;
                     let chunk_cursor = std::io::Cursor::new(chunk_data);
                     let mut chunk_reader = ChunkReader::new(chunk_cursor, header.clone())?;
@@ -2968,7 +2973,7 @@ impl M2Model {
                     let _end_pos = current_pos + header.size as u64;
 
                     // Create a limited reader for this chunk
-                    let mut chunk_data = vec![0u8; header.size as usize];
+                    let mut chunk_data = crate::common::alloc_for_read(reader, header.size as usize)?;
                     reader.read_exact(&mut chunk_data)?;
                     let chunk_cursor = std::io::Cursor::new(chunk_data);
                     let mut chunk_reader = ChunkReader::new(chunk_cursor, header.clone())?;
